@@ -88,6 +88,14 @@ def check_repeat(ctx):
     aa = alias(ctx)
     s_ = aa.summ.get(REPEAT)
     ctx.check(s_ is not None and not s_.mutates, 'C12.1', 'repeat does not write its inputs', f"mutates {sorted(s_.mutates) if s_ else None}", fi.loc(), fi.qualname, 'pure')
+    inplace = [n_ for n_ in ast.walk(fi.node) if isinstance(n_, ast.AugAssign) and isinstance(n_.target, ast.Name)]
+    if not stores and inplace:
+        # the source updates something in place (`name += ...`) and the evaluator recorded no store for it: the name may hold a view of the tiled array
+        # (a row of a reshaped copy, an element of a list of slices): which samples are shifted is not known
+        if True:
+            ctx.unknown('C12.2', 'offset construction', f"in-place updates at lines {[n_.lineno for n_ in inplace]} whose target is not an array the evaluator follows "
+                                                        f"(a view kept in a list / taken from an iterator): construction not recognised", fi.loc(), fi.qualname, 'skeleton')
+            return
     if not stores:
         # a construction without in-place updates (vectorised): compare its element at flat index k with the closed form x[k mod n] + (k div n)*P
         k = sym.idx()
